@@ -233,9 +233,24 @@ def main(argv=None):
             total.merge(_work(w))
     else:
         ctx = multiprocessing.get_context("fork")
+        # Overall deadline: a broken tree can make an exploration blow up or spin.  When it
+        # expires the shards finished so far are reported (violations found are still violations);
+        # without any violation an expired deadline is a harness error, never a pass.
+        deadline = t0 + float(os.environ.get("VERIF_DEADLINE", "1500" if a.tier == "quick" else "14400"))
         with ctx.Pool(min(a.jobs, len(work))) as pool:
-            for st in pool.imap_unordered(_work, work, chunksize=1):
+            it = pool.imap_unordered(_work, work, chunksize=1)
+            done = 0
+            while done < len(work):
+                try:
+                    st = it.next(timeout=max(1.0, deadline - time.time()))
+                except multiprocessing.TimeoutError:
+                    total.exhaustive = False
+                    total.counters["shards_unfinished_at_deadline"] = len(work) - done
+                    total.notes.append("DEADLINE: %d of %d shards unfinished after %.0f s" % (len(work) - done, len(work), time.time() - t0))
+                    pool.terminate()
+                    break
                 total.merge(st)
+                done += 1
     wall = time.time() - t0
 
     known = load_known(pid)
@@ -298,6 +313,9 @@ def main(argv=None):
 
     for n in total.notes:
         print(n)
+    if total.counters.get("shards_unfinished_at_deadline") and exit_code == 0:
+        print("HARNESS ERROR: deadline expired with unfinished shards and no violation found")
+        exit_code = 3
     if total.counters.get("harness_errors"):
         print("HARNESS ERROR: %d shard(s) failed inside the harness" % total.counters["harness_errors"])
         exit_code = exit_code or 3
